@@ -61,25 +61,31 @@ impl Subject for CtorSubj {
                 Err(e) => cache_err(e),
             },
             2 => match caches::SegmentedCache::<TKey, TVal>::new(u(2), u(3)) {
-                Ok(c) => vec![0, c.probationary_cap() as i128, c.protected_cap() as i128],
+                Ok(c) => {
+                    let (prob, prot) = c.verif_parts();
+                    if prob.cap() != u(2) || prot.cap() != u(3) {
+                        return vec![-6];
+                    }
+                    vec![0, c.probationary_cap() as i128, c.protected_cap() as i128]
+                }
                 Err(e) => cache_err(e),
             },
             3 => match caches::TwoQueueCache::<TKey, TVal>::with_2q_parameters(u(2), f(3), f(4)) {
-                Ok(c) => {
-                    let p = c.verif_parts();
-                    vec![0, c.cap() as i128, p.3 as i128, p.2.cap() as i128]
-                }
+                Ok(c) => twoq_out(&c),
                 Err(e) => cache_err(e),
             },
             4 => match caches::TwoQueueCacheBuilder::new(u(2)).set_recent_ratio(f(3)).set_ghost_ratio(f(4)).finalize::<TKey, TVal>() {
-                Ok(c) => {
-                    let p = c.verif_parts();
-                    vec![0, c.cap() as i128, p.3 as i128, p.2.cap() as i128]
-                }
+                Ok(c) => twoq_out(&c),
                 Err(e) => cache_err(e),
             },
             5 => match caches::AdaptiveCache::<TKey, TVal>::new(u(2)) {
-                Ok(c) => vec![0, c.cap() as i128],
+                Ok(c) => {
+                    let (t1, b1, t2, b2) = c.verif_parts();
+                    if [t1.cap(), b1.cap(), t2.cap(), b2.cap()] != [u(2); 4] {
+                        return vec![-6];
+                    }
+                    vec![0, c.cap() as i128]
+                }
                 Err(e) => cache_err(e),
             },
             6 => match caches::WTinyLFUCache::<u64, u64>::with_sizes(u(2), u(3), u(4), u(5)) {
@@ -271,6 +277,10 @@ fn twoq_out<RH: std::hash::BuildHasher, FH: std::hash::BuildHasher, GH: std::has
     c: &caches::TwoQueueCache<TKey, TVal, RH, FH, GH>,
 ) -> Ints {
     let p = c.verif_parts();
+    // the two resident queues are each as large as the whole cache (either may hold every entry)
+    if p.0.cap() != c.cap() || p.1.cap() != c.cap() {
+        return vec![-6];
+    }
     vec![0, c.cap() as i128, p.3 as i128, p.2.cap() as i128]
 }
 
@@ -422,6 +432,17 @@ pub fn grid() -> Vec<Ints> {
             v.push(vec![140, 10, s as i128, r.to_bits() as i128]);
             v.push(vec![140, 11, s as i128, r.to_bits() as i128]);
         }
+    }
+    // sizes beyond every small-integer width (u8, u16) and beyond any "reasonable preallocation" threshold
+    for &s in &[255u64, 256, 65535, 65536, 70001, 131072] {
+        v.push(vec![140, 1, s as i128]);
+        v.push(vec![140, 2, s as i128, 3]);
+        v.push(vec![140, 2, 3, s as i128]);
+        v.push(vec![140, 5, s as i128]);
+        v.push(vec![140, 9, s as i128]);
+        v.push(vec![140, 3, s as i128, RATIOS[2].to_bits() as i128, RATIOS[15].to_bits() as i128]);
+        v.push(vec![140, 4, s as i128, RATIOS[15].to_bits() as i128, RATIOS[2].to_bits() as i128]);
+        v.push(vec![140, 6, 3, s as i128, 5, 8]);
     }
     // products size * ratio that are a hair off an integer in binary64 (50 * 0.58 = 28.999999999999996,
     // 5 * (0.3 - 0.1) = 0.9999999999999999): floor must be taken in double precision, on the exact product
